@@ -548,7 +548,6 @@ func c09Retention(r *mc.Run, bases []*c01base) {
 		Note: fmt.Sprintf("alphabet of %d operations (%d quotes x %v), every sequence of length %d", n, len(items), kinds, depth)})
 }
 
-
 // c09SharedBuffers: well-formed messages whose byte fields are carved out of ONE buffer, each slice keeping the
 // capacity up to the end of that buffer (what a caller gets who splits a received blob by hand): for every ordered
 // pair (A, B) of byte fields B lies directly behind A; plus all fields in wire order, in reverse wire order and
